@@ -681,6 +681,37 @@ void printAstSymbol(ASTNode const & symbolNode) {
     }
 }
 
+// a sort is a (possibly quoted) symbol, or a sort symbol applied to argument sorts
+void printAstSort(ASTNode const & sortNode) {
+    if (sortNode.getType() != LID_T) {
+        printAstSymbol(sortNode);
+        return;
+    }
+    assert(sortNode.children and not sortNode.children->empty());
+    auto it = sortNode.children->begin();
+    std::cout << '(';
+    printAstSymbol(**it);
+    for (++it; it != sortNode.children->end(); ++it) {
+        std::cout << ' ';
+        printAstSort(**it);
+    }
+    std::cout << ')';
+}
+
+// the head of a term: a symbol, or a symbol qualified with its sort, (as <symbol> <sort>)
+void printAstQualIdentifier(ASTNode const & node) {
+    if (node.getType() != AS_T) {
+        printAstSymbol(node);
+        return;
+    }
+    assert(node.children and node.children->size() == 2);
+    std::cout << "(as ";
+    printAstSymbol(*(*node.children)[0]);
+    std::cout << ' ';
+    printAstSort(*(*node.children)[1]);
+    std::cout << ')';
+}
+
 void printAstTermNode(ASTNode const & astNode) {
     ASTType t = astNode.getType();
     if (t == TERM_T) {
@@ -688,13 +719,13 @@ void printAstTermNode(ASTNode const & astNode) {
         std::cout << name;
     } else if (t == QID_T) {
             ASTNode const * symbolNode = (*(astNode.children->begin()));
-            printAstSymbol(*symbolNode);
+            printAstQualIdentifier(*symbolNode);
     } else if ( t == LQID_T ) {
         // Multi-argument term
         auto node_iter = astNode.children->begin();
         ASTNode const & headNode = **node_iter; node_iter++;
         std::cout << "(";
-        printAstSymbol(headNode);
+        printAstQualIdentifier(headNode);
         std::cout << " ";
         bool first = true;
         for (; node_iter != astNode.children->end(); node_iter++) {
